@@ -63,3 +63,15 @@ impl LuaIndex for LuaGlobalIndex {
         self.global_decl.clear();
     }
 }
+
+#[cfg(feature = "verif-hooks")]
+impl LuaGlobalIndex {
+    /// verif hook H1: entry counts of every map of this index
+    pub fn verif_sizes(&self, out: &mut Vec<(String, usize)>) {
+        out.push(("global.global_decl".into(), self.global_decl.len()));
+        out.push((
+            "global.global_decl.sum".into(),
+            self.global_decl.values().map(|v| v.len()).sum(),
+        ));
+    }
+}
